@@ -198,6 +198,8 @@ Inductive qobj :=
 | QNamed (n : string) (inner : qobj) (inv : bool)   (* NamedQuery(name, condition, inverted) *)
 | QAttr (negs : nat) (a : acond)                (* AttributeQuery, wrapped `negs` times in NotCondition *)
 | QInfo (negs : nat) (k v : string)             (* InfoQuery, wrapped `negs` times in NotCondition *)
+| QAttrT (negs : nat) (a : acond)               (* AttributeQuery under `negs` "(...) IS NOT TRUE" (proposed NotCondition) *)
+| QInfoI (inv : bool) (k v : string)            (* InfoQuery with an _inverted flag: id [NOT] IN the info sub-select (proposed) *)
 | QJ (k : jk) (ms : list qobj).                 (* And / Or over a set of conditions *)
 
 Fixpoint qobj_eqb (a b : qobj) {struct a} : bool :=
@@ -209,6 +211,8 @@ Fixpoint qobj_eqb (a b : qobj) {struct a} : bool :=
   | QNamed n i v, QNamed m j w => String.eqb n m && qobj_eqb i j && Bool.eqb v w
   | QAttr n x, QAttr m y => Nat.eqb n m && acond_eqb x y
   | QInfo n k v, QInfo m l w => Nat.eqb n m && String.eqb k l && String.eqb v w
+  | QAttrT n x, QAttrT m y => Nat.eqb n m && acond_eqb x y
+  | QInfoI n k v, QInfoI m l w => Bool.eqb n m && String.eqb k l && String.eqb v w
   | QJ k ms, QJ l ns =>
       jk_eqb k l &&
       (fix go (xs ys : list qobj) {struct xs} : bool :=
@@ -239,6 +243,8 @@ Fixpoint mtabs (q : qobj) : tabs :=
   | QNamed _ _ _ => tabs0
   | QAttr _ _ => tabs0
   | QInfo _ _ _ => tabs0
+  | QAttrT _ _ => tabs0
+  | QInfoI _ _ _ => tabs0
   | QJ _ ms => fold_right (fun m acc => tabs_or (mtabs m) acc) tabs0 ms
   end.
 
@@ -262,6 +268,8 @@ Fixpoint holds (f : fit) (q : qobj) (o : obj) {struct q} : bool :=
       xorb inv (existsb (fun nc => String.eqb (fst nc) n && in_tabs (mtabs inner) (snd nc) && holds f inner (snd nc)) (kids o))
   | QAttr negs a => match acond3 f a with Some b => iter_negb negs b | None => false end   (* not (NULL) is NULL *)
   | QInfo negs k v => existsb (fun kv => iter_negb negs (String.eqb (fst kv) k && String.eqb (snd kv) v)) (finfo f)
+  | QAttrT negs a => iter_negb negs (match acond3 f a with Some b => b | None => false end)   (* NULL IS NOT TRUE is true *)
+  | QInfoI inv k v => xorb inv (existsb (fun kv => String.eqb (fst kv) k && String.eqb (snd kv) v) (finfo f))
   | QJ JAnd ms => forallb (fun m => holds f m o) ms
   | QJ JOr ms => existsb (fun m => holds f m o) ms
   end.
@@ -291,11 +299,17 @@ Definition bind {A B} (r : result A) (k : A -> result B) : result B :=
 Record variant := mkVariant {
   fix_inverted_merge : bool;     (* inverted NamedQuerys are not merged by name (f11f464) *)
   fix_slice : bool;              (* __getitem__ via slice.indices; top-level filter inside the SQL query (127fbf4) *)
-  fix_quote : bool               (* string constants are escaped (60fb795) *)
+  fix_quote : bool;              (* string constants are escaped (60fb795) *)
+  fix_or_tables : bool;          (* proposed: an Or merges same-name queries only when they read the same tables *)
+  fix_not_info : bool;           (* proposed: ~InfoQuery selects the fits NOT IN the info sub-select *)
+  fix_not_null : bool;           (* proposed: NotCondition renders "(c) IS NOT TRUE" instead of "not (c)" *)
+  fix_not_junction : bool        (* proposed: ~ of an And / Or by De Morgan *)
 }.
-Definition legacy := mkVariant false false false.
-Definition prequote := mkVariant true true false.
-Definition current := mkVariant true true true.
+Definition legacy := mkVariant false false false false false false false.
+Definition prequote := mkVariant true true false false false false false.
+Definition current := mkVariant true true true false false false false.
+(* the code with proposed_fixes/C10-{or-merge-same-tables,not-info,not-null-safe,not-junction}.diff applied *)
+Definition next := mkVariant true true true true true true true.
 
 Fixpoint flatten (k : jk) (q : qobj) : list qobj :=
   match q with
@@ -315,6 +329,16 @@ Definition mergeable (vr : variant) (q : qobj) : bool :=
 Definition qname (q : qobj) : string := match q with QNamed n _ _ => n | _ => "" end.
 Definition qinner (q : qobj) : qobj := match q with QNamed _ i _ => i | _ => q end.
 
+(* the key under which a junction of type k groups a NamedQuery: its name, and (proposed repair, Or only)
+   the tables it reads *)
+Definition mkey (vr : variant) (k : jk) (q : qobj) : string * tabs :=
+  (qname q, if fix_or_tables vr && jk_eqb k JOr then mtabs (qinner q) else tabs0).
+Definition key_eqb (a b : string * tabs) : bool := String.eqb (fst a) (fst b) && tabs_eqb (snd a) (snd b).
+Fixpoint mem_key (x : string * tabs) (l : list (string * tabs)) : bool :=
+  match l with [] => false | y :: r => key_eqb y x || mem_key x r end.
+Fixpoint nodup_key (l : list (string * tabs)) : list (string * tabs) :=
+  match l with [] => [] | x :: r => if mem_key x r then nodup_key r else x :: nodup_key r end.
+
 Fixpoint mem_str (s : string) (l : list string) : bool :=
   match l with [] => false | x :: r => String.eqb x s || mem_str s r end.
 Fixpoint nodup_str (l : list string) : list string :=
@@ -330,9 +354,8 @@ Fixpoint map_result {A B} (f : A -> result B) (l : list A) : result (list B) :=
   | x :: r => bind (f x) (fun y => bind (map_result f r) (fun ys => Ok (y :: ys)))
   end.
 
-(* cls(conditions...): flatten same-type junctions, group NamedQuerys by name (dropping their
-   `_inverted` flag in the current code), apply cls to the grouped inner conditions, collect
-   into a set, return the only member when there is exactly one *)
+(* cls(conditions...): flatten same-type junctions, group NamedQuerys by key, apply cls to the grouped
+   inner conditions, collect into a set, return the only member when there is exactly one *)
 Fixpoint mk_junction (vr : variant) (fuel : nat) (k : jk) (conds : list qobj) : result qobj :=
   match fuel with
   | O => Err EFuel
@@ -340,13 +363,13 @@ Fixpoint mk_junction (vr : variant) (fuel : nat) (k : jk) (conds : list qobj) : 
       let flat := flat_map (flatten k) conds in
       let named := filter (mergeable vr) flat in
       let others := filter (fun q => negb (mergeable vr q)) flat in
-      let names := nodup_str (map qname named) in
+      let keys := nodup_key (map (mkey vr k) named) in
       bind (map_result
-              (fun n =>
-                 bind (mk_junction vr fuel' k (map qinner (filter (fun q => String.eqb (qname q) n) named)))
-                      (fun sub => let m := QNamed n sub false in
+              (fun key =>
+                 bind (mk_junction vr fuel' k (map qinner (filter (fun q => key_eqb (mkey vr k q) key) named)))
+                      (fun sub => let m := QNamed (fst key) sub false in
                                   if tables_ok m then Ok m else Err EAssertion))
-              names)
+              keys)
            (fun merged =>
               match dedupe (others ++ merged) with
               | [x] => Ok x
@@ -365,12 +388,26 @@ Definition depth_list (l : list qobj) : nat := fold_right (fun m acc => Nat.max 
 Definition junction (vr : variant) (k : jk) (conds : list qobj) : result qobj :=
   mk_junction vr (S (depth_list conds)) k conds.
 
-(* ~ : NamedQuery.__invert__, AbstractQuery.__invert__; junctions and plain conditions have none *)
-Definition invert (q : qobj) : result qobj :=
+Definition dual (k : jk) : jk := match k with JAnd => JOr | JOr => JAnd end.
+
+(* ~ : NamedQuery.__invert__ toggles; AbstractQuery.__invert__ wraps the condition in NotCondition;
+   plain conditions have none; junctions have none in the current code (proposed: De Morgan) *)
+Fixpoint invert (vr : variant) (q : qobj) : result qobj :=
   match q with
   | QNamed n i inv => Ok (QNamed n i (negb inv))
-  | QAttr negs a => Ok (QAttr (S negs) a)
+  | QAttr negs a => if fix_not_null vr then Ok (QAttrT (S negs) a) else Ok (QAttr (S negs) a)
+  | QAttrT negs a => Ok (QAttrT (S negs) a)
   | QInfo negs k v => Ok (QInfo (S negs) k v)
+  | QInfoI inv k v => Ok (QInfoI (negb inv) k v)
+  | QJ k ms =>
+      if fix_not_junction vr
+      then bind ((fix go (l : list qobj) : result (list qobj) :=
+                    match l with
+                    | [] => Ok []
+                    | x :: r => bind (invert vr x) (fun y => bind (go r) (fun ys => Ok (y :: ys)))
+                    end) ms)
+                (fun ms' => junction vr (dual k) ms')
+      else Err ETypeError
   | _ => Err ETypeError
   end.
 
@@ -408,10 +445,10 @@ Fixpoint compile (vr : variant) (p : pred) : result qobj :=
   | PCmp [] _ _ => Err ETypeError
   | PCmp path c k => bind (leaf_of c k) (fun leaf => Ok (named_path path leaf))
   | PAttr a => Ok (QAttr 0 a)
-  | PInfo k v => Ok (QInfo 0 k v)
+  | PInfo k v => if fix_not_info vr then Ok (QInfoI false k v) else Ok (QInfo 0 k v)
   | PAnd p q => bind (compile vr p) (fun a => bind (compile vr q) (fun b => junction vr JAnd [a; b]))
   | POr p q => bind (compile vr p) (fun a => bind (compile vr q) (fun b => junction vr JOr [a; b]))
-  | PNot p => bind (compile vr p) invert
+  | PNot p => bind (compile vr p) (invert vr)
   end.
 
 (* predicates the API accepts by design: non-empty paths, inequalities only against numbers / strings *)
@@ -585,17 +622,37 @@ Fixpoint merge_ok (vr : variant) (ci ct : bool) (fuel : nat) (k : jk) (conds : l
       let flat := flat_map (flatten k) conds in
       let named := filter (mergeable vr) flat in
       (negb ci || forallb (fun q => match q with QNamed _ _ inv => negb inv | _ => true end) named) &&
-      forallb (fun n =>
-                 let group := map qinner (filter (fun q => String.eqb (qname q) n) named) in
+      forallb (fun key =>
+                 let group := map qinner (filter (fun q => key_eqb (mkey vr k q) key) named) in
                  (negb ct || match k with JOr => all_same_tabs group | JAnd => true end) &&
                  merge_ok vr ci ct fuel' k group)
-              (nodup_str (map qname named))
+              (nodup_key (map (mkey vr k) named))
   end.
 Definition junction_ok (vr : variant) (ci ct : bool) (k : jk) (conds : list qobj) : bool :=
   merge_ok vr ci ct (S (depth_list conds)) k conds.
 
 (* a predicate is `safe` when every junction met while compiling it passes junction_ok and
    negation is applied neither to an info test nor to a fit-attribute test *)
+(* negating q is exact: not an info test in NotCondition form (cn), not an attribute test in
+   "not (c)" form (ca: needed only when a column holds NULL); for a junction (proposed De Morgan) every
+   member and the dual junction of the negated members *)
+Fixpoint neg_ok (vr : variant) (ci ct cn ca : bool) (q : qobj) : bool :=
+  match q with
+  | QInfo _ _ _ => negb cn
+  | QAttr negs _ => if fix_not_null vr then Nat.eqb negs 0 else negb ca
+  | QJ k ms =>
+      forallb (neg_ok vr ci ct cn ca) ms &&
+      match (fix go (l : list qobj) : result (list qobj) :=
+               match l with
+               | [] => Ok []
+               | x :: r => bind (invert vr x) (fun y => bind (go r) (fun ys => Ok (y :: ys)))
+               end) ms with
+      | Ok ms' => junction_ok vr ci ct (dual k) ms'
+      | Err _ => true
+      end
+  | _ => true
+  end.
+
 Fixpoint safe_with (vr : variant) (ci ct cn ca : bool) (p : pred) : bool :=
   match p with
   | PCmp _ _ _ | PAttr _ | PInfo _ _ => true
@@ -607,8 +664,7 @@ Fixpoint safe_with (vr : variant) (ci ct cn ca : bool) (p : pred) : bool :=
       match compile vr a, compile vr b with Ok x, Ok y => junction_ok vr ci ct JOr [x; y] | _, _ => true end
   | PNot a =>
       safe_with vr ci ct cn ca a &&
-      (negb cn || match compile vr a with Ok (QInfo _ _ _) => false | _ => true end) &&
-      (negb ca || match compile vr a with Ok (QAttr _ _) => false | _ => true end)
+      match compile vr a with Ok x => neg_ok vr ci ct cn ca x | Err _ => true end
   end.
 (* ci: no inverted NamedQuery in a name merge; ct: Or-merges over equal tables; cn: no negated info
    test; ca: no negated fit-attribute test (needed only when an attribute column holds NULL) *)
@@ -901,6 +957,12 @@ Definition case_labels_with (vr : variant) (c : case) : N :=
    + bit (on_pred c (quote_bad vr)) 1024                                          (* unescaped quote *)
    + bit (on_pred c has_shadow) 2048)%N.                                          (* shadowed path segment *)
 Definition case_labels := case_labels_with current.
-(* variants describing the code with repairs reverted (VERIF_C10_VARIANT; regression experiments) *)
+(* variants describing the code with repairs reverted, or with proposed repairs applied on a scratch
+   copy (VERIF_C10_VARIANT) *)
 Definition case_labels_prequote := case_labels_with prequote.
 Definition case_labels_legacy := case_labels_with legacy.
+Definition case_labels_next := case_labels_with next.
+Definition case_labels_ortab := case_labels_with (mkVariant true true true true false false false).
+Definition case_labels_ninfo := case_labels_with (mkVariant true true true false true false false).
+Definition case_labels_nnull := case_labels_with (mkVariant true true true false false true false).
+Definition case_labels_njunc := case_labels_with (mkVariant true true true false false false true).
